@@ -39,13 +39,11 @@ Check C11_strReplace_identity :
   forall s from, from <> [] -> replace_spec s from from = Some s.
 Check C11_parse_nat_exact :
   forall base s v, (base = 8 \/ base = 10 \/ base = 16)%N ->
-    known_hex_punct base s = false -> nat_spec base s = Some v -> (v < 2 ^ 53)%N ->
+    nat_spec base s = Some v -> (v < 2 ^ 53)%N ->
     nat_impl base s = PFin v.
 Check C11_parse_nat_rejects :
   forall base s, (base = 8 \/ base = 10 \/ base = 16)%N ->
-    known_hex_punct base s = false -> nat_spec base s = None -> nat_impl base s = PBad.
-Check C11_parse_hex_refuted :
-  exists s, known_hex_punct 16 s = true /\ nat_spec 16 s = None /\ nat_impl 16 s = PFin 10.
+    nat_spec base s = None -> nat_impl base s = PBad.
 Check C11_digit_alphabet :
   forall base c, (base = 8 \/ base = 10 \/ base = 16)%N ->
     (exists d, digit_spec base c = Some d) <->
@@ -101,8 +99,9 @@ Check eq_refl : nat_spec 10 []%N = None.
 Check eq_refl : int_spec [45; 49; 50]%N = Some (-12)%Z.
 Check eq_refl : int_spec [45]%N = None.
 Check eq_refl : nat_impl 10 [57; 48; 48; 55; 49; 57; 57; 50; 53; 52; 55; 52; 48; 57; 57; 51]%N = PFin 9007199254740992%N.
-Check eq_refl : known_hex_punct 16 [49; 58]%N = true.
-Check eq_refl : known_hex_punct 10 [49; 58]%N = false.
+Check eq_refl : nat_impl 16 [58]%N = PBad.
+Check eq_refl : nat_impl 16 [49; 63]%N = PBad.
+Check eq_refl : nat_impl 16 [102; 70; 57]%N = PFin 4089%N.
 Check eq_refl : b64_encode [77; 97; 110]%N = [84; 87; 70; 117]%N.
 Check eq_refl : b64_encode [77; 97]%N = [84; 87; 69; 61]%N.
 Check eq_refl : b64_encode [77]%N = [84; 81; 61; 61]%N.
